@@ -8,8 +8,8 @@ import (
 
 	"github.com/ethereum/go-ethereum/common"
 	"github.com/ethereum/go-ethereum/core/types/goattypes"
-	lockingtypes "github.com/goatnetwork/goat/x/locking/types"
 	"github.com/goatnetwork/goat/verifsim/simrt"
+	lockingtypes "github.com/goatnetwork/goat/x/locking/types"
 )
 
 var simEpochVal = simrt.Epoch
